@@ -18,6 +18,14 @@ messages, and room-session ids resolved per backend. -/
 theorem C03_facts : Generated.Hub.messageBackendChecked = true ∧ Generated.Hub.controlBackendChecked = true ∧
     Generated.Hub.roomSessionBackendChecked = true := by decide
 
+/-- **Media offers.**  The hub model has no media server: the answer to a `requestoffer` (the publisher's
+offer, delivered to the requester as a message *of the publishing session*) is outside it.  That the request is
+accepted only for a publisher in the same room **of the same backend** is the gate `Hub.isInSameCall`
+(proved to be the statement's condition in `C08_sameCall_iff`, rooms there being backend-qualified); that the
+gate compares rooms with `Room.IsEqual`, and that `Room.IsEqual` compares room id *and* backend id — "rooms
+with the same id on different backends are distinct rooms" — is regenerated from the source on every run. -/
+theorem C03_same_call_is_per_backend : Generated.Hub.sameCallIsPerBackend = true := by decide
+
 /-- **Bus subjects.** In every reachable state all listeners of the room subject `(b, r)`, all
 listeners of the user subject `(b, u)` and all members (and in-call members) of room `(b, r)` are
 sessions of backend `b` — also when room ids or user ids coincide across backends. -/
